@@ -58,3 +58,44 @@ def load3d(name, model=None):
     from rnapolis.parser import read_3d_structure
     with open(corpus(name)) as f:
         return read_3d_structure(f, model)
+
+
+def rebuild(s3, atom_fn=None, keep_res=None, keep_atom=None):
+    """new Structure3D with atoms mapped through atom_fn(residue, atom) -> (x, y, z, occupancy) or None (drop)"""
+    import dataclasses
+    from rnapolis.tertiary import Structure3D
+    residues = []
+    for ri, res in enumerate(s3.residues):
+        if keep_res is not None and not keep_res(ri, res):
+            continue
+        atoms = []
+        for a in res.atoms:
+            if keep_atom is not None and not keep_atom(res, a):
+                continue
+            if atom_fn is None:
+                atoms.append(a)
+            else:
+                r = atom_fn(res, a)
+                if r is None:
+                    continue
+                x, y, z, occ = r
+                atoms.append(dataclasses.replace(a, x=x, y=y, z=z, occupancy=occ))
+        residues.append(dataclasses.replace(res, atoms=tuple(atoms)))
+    return Structure3D(residues)
+
+
+def snapped(s3):
+    return rebuild(s3, lambda res, a: (snap(a.x), snap(a.y), snap(a.z), a.occupancy))
+
+
+def moved(s3, R, t, do_snap=True):
+    def f(res, a):
+        p = R @ np.array([a.x, a.y, a.z]) + t
+        if do_snap:
+            return (snap(float(p[0])), snap(float(p[1])), snap(float(p[2])), a.occupancy)
+        return (float(p[0]), float(p[1]), float(p[2]), a.occupancy)
+    return rebuild(s3, f)
+
+
+def jittered(s3, rng, sigma):
+    return rebuild(s3, lambda res, a: (snap(a.x + rng.gauss(0, sigma)), snap(a.y + rng.gauss(0, sigma)), snap(a.z + rng.gauss(0, sigma)), a.occupancy))
